@@ -22,3 +22,15 @@ META = {
              "Bounded: chains up to 9 words exhaustively, deeper ones by random traces.",
         technique=TECH),
 }
+def _m(text, ref, note="Trusted: TLC, the harness's token renderer and abs() projection. Random exploration judged by the specification; exhaustive only where an MC stage is listed in the evidence."):
+    return dict(text=text, design_ref=ref, note=note, technique=TECH)
+META.update({
+    "C02": _m("Recorded executions of random container filters are accepted only if every result equals the L1 semantics (GetPath, row-major Flatten, element-wise logic with truncation, any/all).", "DESIGN.md section 6 C02"),
+    "C03": _m("Recorded executions of random calls are accepted only if results equal EvalCall/FnSem: arguments in order, defaults, typed absence, per-element application with dropped absent results, concat.", "DESIGN.md section 6 C03"),
+    "C04": _m("Parse verdicts of well-typed and mutated programs must equal the L2 parser/type-checker model; accepted programs must execute without panic.", "DESIGN.md section 6 C04"),
+    "C07": _m("Alias/white-space variants must yield equal AST, identical JSON text and hash; JSON must equal the canonical AstJson; structurally different partners must serialize differently.", "DESIGN.md section 6 C07"),
+    "C09": _m("Recorded `in {..}` executions with long random lists are accepted only if they equal declarative membership.", "DESIGN.md section 6 C09"),
+    "C12": _m("uses()/uses_list() answers on random filters are accepted only if they equal the syntactic occurrence predicates.", "DESIGN.md section 6 C12"),
+    "C13": _m("Parse verdicts of nesting shapes under varying limits must equal the L2 counter model, which is checked against Nesting(ast).", "DESIGN.md section 6 C13"),
+    "C17": _m("`in $name` executions are accepted only if they equal the matcher's answer in the model; list-name validity and per-type registration decide the parse verdict.", "DESIGN.md section 6 C17"),
+})
